@@ -1,11 +1,254 @@
 package main
 
 import (
+	"fmt"
 	"go/ast"
 	"go/token"
+	"reflect"
+	"strconv"
 )
 
-// rewriteConc is filled in by the C17 work (conc mode).
+// conc mode: mechanical translation of the language-level concurrency
+// constructs into calls on the vsync shim (imported under the name "sync"):
+//
+//	go f(a, b)              ->  { t0 := a; t1 := b; sync.Go(func() { f(t0, t1) }) }
+//	chan T, <-chan T, chan<- T  ->  *sync.Chan[T]
+//	make(chan T, n)         ->  sync.NewChan[T](n)
+//	c <- v                  ->  c.Send(v)
+//	<-c                     ->  c.Recv()
+//	select { case <-c: A; case d <- v: B; default: D }
+//	                        ->  switch sync.Select(false, sync.RecvCase(c), sync.SendCase(d, v)) { case 0: A; case 1: B; default: D }
+//	a default clause consisting solely of runtime.Gosched() (a polling loop)
+//	                        ->  blocking select (first argument true), default dropped
+//
+// Anything else that touches channels (close, range, receive with assignment
+// inside select) stops the rewriter with exit 3.
+
+const syncName = "sync"
+
+var tmpCounter int
+
 func rewriteConc(fset *token.FileSet, f *ast.File) {
-	die("conc mode not built yet")
+	f.Comments = nil
+	f.Doc = nil
+	ensureImport(f)
+	walk(reflect.ValueOf(f))
+}
+
+func ensureImport(f *ast.File) {
+	for _, im := range f.Imports {
+		if im.Name != nil && im.Name.Name == syncName {
+			return
+		}
+		p, _ := strconv.Unquote(im.Path.Value)
+		if p == "sync" {
+			die("file imports the real sync package; pass sync=<shim> as substitution")
+		}
+	}
+	die("file does not import sync (needed for the shim); unsupported")
+}
+
+var (
+	exprType = reflect.TypeOf((*ast.Expr)(nil)).Elem()
+	stmtType = reflect.TypeOf((*ast.Stmt)(nil)).Elem()
+	objType  = reflect.TypeOf((*ast.Object)(nil))
+	scpType  = reflect.TypeOf((*ast.Scope)(nil))
+)
+
+// walk rewrites the tree below v in post-order.
+func walk(v reflect.Value) {
+	switch v.Kind() {
+	case reflect.Ptr:
+		if v.IsNil() || v.Type() == objType || v.Type() == scpType {
+			return
+		}
+		walk(v.Elem())
+	case reflect.Interface:
+		if v.IsNil() {
+			return
+		}
+		walk(v.Elem())
+	case reflect.Slice:
+		for i := 0; i < v.Len(); i++ {
+			el := v.Index(i)
+			walk(el)
+			replace(el)
+		}
+	case reflect.Struct:
+		for i := 0; i < v.NumField(); i++ {
+			fl := v.Field(i)
+			if !fl.CanSet() {
+				continue
+			}
+			switch fl.Kind() {
+			case reflect.Ptr, reflect.Interface, reflect.Slice:
+				walk(fl)
+				replace(fl)
+			}
+		}
+	}
+}
+
+// replace substitutes the node held in the settable value v if it is one of
+// the constructs to translate.
+func replace(v reflect.Value) {
+	if !v.CanSet() || v.Kind() != reflect.Interface || v.IsNil() {
+		return
+	}
+	switch v.Type() {
+	case exprType:
+		if n := mapExpr(v.Interface().(ast.Expr)); n != nil {
+			v.Set(reflect.ValueOf(n))
+		}
+	case stmtType:
+		if n := mapStmt(v.Interface().(ast.Stmt)); n != nil {
+			v.Set(reflect.ValueOf(n))
+		}
+	}
+}
+
+func sel(x, name string) ast.Expr {
+	return &ast.SelectorExpr{X: ast.NewIdent(x), Sel: ast.NewIdent(name)}
+}
+
+func chanOf(elem ast.Expr) ast.Expr {
+	return &ast.StarExpr{X: &ast.IndexExpr{X: sel(syncName, "Chan"), Index: elem}}
+}
+
+func mapExpr(e ast.Expr) ast.Expr {
+	switch x := e.(type) {
+	case *ast.ChanType:
+		return chanOf(x.Value)
+	case *ast.UnaryExpr:
+		if x.Op == token.ARROW {
+			return &ast.CallExpr{Fun: &ast.SelectorExpr{X: x.X, Sel: ast.NewIdent("Recv")}}
+		}
+	case *ast.CallExpr:
+		if id, ok := x.Fun.(*ast.Ident); ok {
+			switch id.Name {
+			case "make":
+				if len(x.Args) >= 1 {
+					// the channel type has already been rewritten to *sync.Chan[T]
+					if st, ok := x.Args[0].(*ast.StarExpr); ok {
+						if ix, ok := st.X.(*ast.IndexExpr); ok && isSel(ix.X, syncName, "Chan") {
+							var n ast.Expr = &ast.BasicLit{Kind: token.INT, Value: "0"}
+							if len(x.Args) == 2 {
+								n = x.Args[1]
+							}
+							return &ast.CallExpr{Fun: &ast.IndexExpr{X: sel(syncName, "NewChan"), Index: ix.Index}, Args: []ast.Expr{n}}
+						}
+					}
+				}
+			case "close":
+				die("close(channel) is not supported by the shim")
+			}
+		}
+	}
+	return nil
+}
+
+func isSel(e ast.Expr, x, name string) bool {
+	s, ok := e.(*ast.SelectorExpr)
+	if !ok {
+		return false
+	}
+	id, ok := s.X.(*ast.Ident)
+	return ok && id.Name == x && s.Sel.Name == name
+}
+
+func isMethodCall(e ast.Expr, name string) (*ast.CallExpr, ast.Expr) {
+	c, ok := e.(*ast.CallExpr)
+	if !ok {
+		return nil, nil
+	}
+	s, ok := c.Fun.(*ast.SelectorExpr)
+	if !ok || s.Sel.Name != name {
+		return nil, nil
+	}
+	return c, s.X
+}
+
+func mapStmt(s ast.Stmt) ast.Stmt {
+	switch x := s.(type) {
+	case *ast.SendStmt:
+		return &ast.ExprStmt{X: &ast.CallExpr{Fun: &ast.SelectorExpr{X: x.Chan, Sel: ast.NewIdent("Send")}, Args: []ast.Expr{x.Value}}}
+	case *ast.GoStmt:
+		return goStmt(x)
+	case *ast.SelectStmt:
+		return selectStmt(x)
+	case *ast.RangeStmt:
+		// ranging over a channel cannot be recognised without types; the
+		// rewritten file will not compile in that case (loud failure)
+	}
+	return nil
+}
+
+func goStmt(g *ast.GoStmt) ast.Stmt {
+	call := g.Call
+	if fl, ok := call.Fun.(*ast.FuncLit); ok && len(call.Args) == 0 && (fl.Type.Params == nil || len(fl.Type.Params.List) == 0) {
+		return &ast.ExprStmt{X: &ast.CallExpr{Fun: sel(syncName, "Go"), Args: []ast.Expr{fl}}}
+	}
+	var stmts []ast.Stmt
+	var args []ast.Expr
+	for _, a := range call.Args {
+		tmpCounter++
+		name := fmt.Sprintf("verifGoArg%d", tmpCounter)
+		stmts = append(stmts, &ast.AssignStmt{Lhs: []ast.Expr{ast.NewIdent(name)}, Tok: token.DEFINE, Rhs: []ast.Expr{a}})
+		args = append(args, ast.NewIdent(name))
+	}
+	inner := &ast.CallExpr{Fun: call.Fun, Args: args, Ellipsis: call.Ellipsis}
+	thunk := &ast.FuncLit{Type: &ast.FuncType{Params: &ast.FieldList{}}, Body: &ast.BlockStmt{List: []ast.Stmt{&ast.ExprStmt{X: inner}}}}
+	stmts = append(stmts, &ast.ExprStmt{X: &ast.CallExpr{Fun: sel(syncName, "Go"), Args: []ast.Expr{thunk}}})
+	return &ast.BlockStmt{List: stmts}
+}
+
+func selectStmt(s *ast.SelectStmt) ast.Stmt {
+	blocking := true
+	var cases []ast.Expr
+	var clauses []ast.Stmt
+	idx := 0
+	for _, c := range s.Body.List {
+		cc := c.(*ast.CommClause)
+		if cc.Comm == nil {
+			// default clause
+			if isSpinDefault(cc.Body) {
+				continue // polling loop: emitted as a blocking select
+			}
+			blocking = false
+			clauses = append(clauses, &ast.CaseClause{List: nil, Body: cc.Body})
+			continue
+		}
+		es, ok := cc.Comm.(*ast.ExprStmt)
+		if !ok {
+			die("select case with assignment is not supported by the shim")
+		}
+		if call, ch := isMethodCall(es.X, "Recv"); call != nil && len(call.Args) == 0 {
+			cases = append(cases, &ast.CallExpr{Fun: sel(syncName, "RecvCase"), Args: []ast.Expr{ch}})
+		} else if call, ch := isMethodCall(es.X, "Send"); call != nil && len(call.Args) == 1 {
+			cases = append(cases, &ast.CallExpr{Fun: sel(syncName, "SendCase"), Args: []ast.Expr{ch, call.Args[0]}})
+		} else {
+			die("unsupported select case")
+		}
+		clauses = append(clauses, &ast.CaseClause{List: []ast.Expr{&ast.BasicLit{Kind: token.INT, Value: strconv.Itoa(idx)}}, Body: cc.Body})
+		idx++
+	}
+	b := "false"
+	if blocking {
+		b = "true"
+	}
+	args := append([]ast.Expr{ast.NewIdent(b)}, cases...)
+	return &ast.SwitchStmt{Tag: &ast.CallExpr{Fun: sel(syncName, "Select"), Args: args}, Body: &ast.BlockStmt{List: clauses}}
+}
+
+// isSpinDefault recognises `default: runtime.Gosched()`.
+func isSpinDefault(body []ast.Stmt) bool {
+	if len(body) != 1 {
+		return false
+	}
+	es, ok := body[0].(*ast.ExprStmt)
+	if !ok {
+		return false
+	}
+	c, ok := es.X.(*ast.CallExpr)
+	return ok && isSel(c.Fun, "runtime", "Gosched") && len(c.Args) == 0
 }
